@@ -231,7 +231,10 @@ pub fn judge_e2e(sc: &crate::e2e::Scenario, out: &crate::e2e::Outcome, rep: &Val
         // the file receives the same records in the same order; the process is stopped while it runs, so the record
         // printed last may not have reached the file yet (the write follows the println in the same loop iteration)
         let n = out.lines.len();
-        let same = (fl.len() == n || fl.len() + 1 == n) && fl.iter().zip(out.lines.iter()).all(|(a, b)| a == b);
+        // (a writer that buffers its output may hold back more than one record when the process is stopped: what the
+        // file lacks must be a tail of stdout of less than 64 KiB)
+        let held_back: usize = out.lines.iter().skip(fl.len()).map(|l| l.len() + 1).sum();
+        let same = fl.len() <= n && held_back < 65_536 && fl.iter().zip(out.lines.iter()).all(|(a, b)| a == b);
         if !same {
             let k = fl.iter().zip(out.lines.iter()).position(|(a, b)| a != b).unwrap_or(fl.len().min(n));
             return Err(fail("file-differs-from-stdout", format!("the --output file has {} lines, stdout {}; first difference at line {}: file {:?}, stdout {:?}", fl.len(), n, k + 1, fl.get(k), out.lines.get(k))));
